@@ -18,7 +18,7 @@ package align
 //@ pure func c14b_cons(a *align, cons *align, s int, ig bool, in bool) bool = (forall k :: 0 <= k && k < 256 && ucnt(a, s, k) > 0 ==> excl(a, ig, in, k)) ? cell(cons, 0, s) == up8(old(cell(a, 0, s))) : (!excl(a, ig, in, cell(cons, 0, s)) && ucnt(a, s, cell(cons, 0, s)) > 0 && (forall k :: 0 <= k && k < 256 && !excl(a, ig, in, k) ==> ucnt(a, s, k) <= ucnt(a, s, cell(cons, 0, s)) && (ucnt(a, s, k) == ucnt(a, s, cell(cons, 0, s)) ==> cell(cons, 0, s) <= k)))
 
 //@ func (*align).Consensus
-//@   props C14 C19
+//@   props C14 C19 C01
 //@   requires wfa(a)
 //@   ensures cons != nil && fresh(cons) && wfa(cons) && cons.alphabet == a.alphabet && nrows(cons) == 1 && rowname(cons, 0) == "consensus"
 //@   ensures cons.length == (a.length < 0 ? 0 : a.length) && fresh(row(cons, 0)) && fresh(row(cons, 0).sequence)
